@@ -247,6 +247,10 @@ pub use self::value::Value;
 pub use self::macros::__context;
 pub use self::vm::State;
 
+/// Verification hooks (instrumentation only, feature `verif_hooks`).
+#[cfg(feature = "verif_hooks")]
+pub mod verif;
+
 /// This module gives access to the low level machinery.
 ///
 /// This module is only provided by the `unstable_machinery` feature and does not
